@@ -81,5 +81,5 @@ def run(out, tier, seed, prop="C03"):
     out.assumptions += [
         "each primitive library is trusted only as a primitive; the two families are forced to agree with each other through the terms",
         "L1 (Construct.tla) is written from the PASETO/PASERK texts; the official vectors pin it transitively (the repository's suite pins the code to the vectors, this check pins the code to L1 on thousands of inputs)",
-        "nonces whose DERIVED counter wraps (v3 local, PIE, PKE) cannot be chosen without a source hook; the embedded-IV sites (v1 local on decrypt, PBKW k1/k3) are covered",
+        "derived counter blocks (v3 local, PIE and PKE of k1/k3) are substituted through the cfg-guarded hook paseto_core::verif; embedded-IV sites (v1 local, PBKW k1/k3) need no hook",
     ]
